@@ -595,10 +595,15 @@ static void _flush_output (cbuf_t cb, out_f outf, thd_t *th)
     while ((n = cbuf_read (cb, buf, sizeof (buf) - 1)) > 0) {
         buf[n] = '\0';
         if (th->labels && !labeled) {
-            outf ("%S: ", th->host);
+            /*
+             *  Write the label and the data with a single call so that
+             *   output of another host cannot end up between the two.
+             */
+            outf ("%S: %s", th->host, buf);
             labeled = true;
         }
-        outf ("%s", buf);
+        else
+            outf ("%s", buf);
     }
 
     return;
